@@ -260,7 +260,7 @@ func (u *Unit) callBuiltin(st *State, name string, c *ast.CallExpr) []Val {
 			u.safe("make", c.Pos(), st, app(">=", n.T, "0"), "make length >= 0")
 			es := u.sortOf(t.Elem())
 			so := u.sortOf(rt)
-			arr := app(fmt.Sprintf("(as const (Array Int %s))", es), u.zero(t.Elem()).T)
+			arr := u.zeroArray(es, u.zero(t.Elem()).T)
 			return []Val{{T: u.mkSlice(so, arr, "0", n.T, "false"), Ty: rt, So: so}}
 		case *types.Map:
 			so := u.sortOf(rt)
